@@ -333,6 +333,7 @@ fn selftest(args: &[String]) -> i32 {
             victims: vec![],
             layers: vec![],
             taps: false,
+            erased: false,
         }],
         mutations: vec![],
         schedule: vec![],
